@@ -131,19 +131,19 @@ type vfC09pmH struct {
 	gate    chan vfC09pmDecision
 	passedB []string // peers whose answer was returned to the manager (swept) since the last collection
 
-	logs        []vfC09pmLog
-	logSeen     int
-	emitted     []vfC09pmEmitted // accepted by the subscription (emitted while subscribed), in order
-	consumed    int
-	emitStarted int
-	emitDone    int
-	closeStart  int
-	closeDone   int
+	logs             []vfC09pmLog
+	logSeen          int
+	emitted          []vfC09pmEmitted // accepted by the subscription (emitted while subscribed), in order
+	consumed         int
+	emitStarted      int
+	emitDone         int
+	closeStart       int
+	closeDone        int
 	closeDoneAtStart int // Close calls that had returned (doing nothing) before Start
-	started     bool
-	startAt     time.Duration
-	cancelAt    time.Duration
-	cancelSet   bool
+	started          bool
+	startAt          time.Duration
+	cancelAt         time.Duration
+	cancelSet        bool
 
 	// monitors
 	pend          map[string]vfC09pmPend
@@ -649,6 +649,7 @@ type vfC09pmCfg struct {
 	atomic     bool
 	initData   bool
 	defaultInt bool
+	monOnly    bool // re-execution of a saved prefix: no model states, monitors only
 }
 
 func vfC09pmHash(parts ...[]byte) string {
@@ -685,7 +686,7 @@ func vfC09pmWalk(t *testing.T, res *vfh.Result, cfg vfC09pmCfg, w vfh.Walk) {
 		step := -1
 		mism := func(cls, what string, exp, got any) {
 			res.AddMismatch(vfh.Mismatch{Class: cls, What: fmt.Sprintf("[%s] %s", cfg.name, what), Walk: w.Walk, Step: step, Expected: exp, Got: got,
-				Prefix: append([]vfh.Op(nil), prefix...), Cfg: map[string]any{"instance": cfg.name, "G": cfg.g, "I": cfg.i, "Buf": cfg.buf, "atomic": cfg.atomic}})
+				Prefix: append([]vfh.Op(nil), prefix...), Cfg: map[string]any{"instance": cfg.name, "G": cfg.g, "I": cfg.i, "Buf": cfg.buf, "atomic": cfg.atomic, "peers": cfg.peers, "initData": cfg.initData}})
 		}
 		rep := func(cls, what string) { mism(cls, what, nil, nil) }
 		prevRaw := []byte(w.Init)
@@ -700,8 +701,10 @@ func vfC09pmWalk(t *testing.T, res *vfh.Result, cfg vfC09pmCfg, w vfh.Walk) {
 				before[p] = h.books(p)
 			}
 			var want vfC09pmState
-			if err := json.Unmarshal(st.State, &want); err != nil {
-				t.Fatalf("state: %v", err)
+			if !cfg.monOnly {
+				if err := json.Unmarshal(st.State, &want); err != nil {
+					t.Fatalf("state: %v", err)
+				}
 			}
 			ok := true
 			switch op.Name() {
@@ -753,109 +756,111 @@ func vfC09pmWalk(t *testing.T, res *vfh.Result, cfg vfC09pmCfg, w vfh.Walk) {
 				mism("L2:position", fmt.Sprintf("the loop is not where the model has it before %s", op.Name()), op, pos+"/"+pp)
 				aborted = true
 			}
-			// ---- observables against the model
 			pos, pp := h.where()
-			if !aborted {
-				gotPc := pos
-				if gotPc != want.Pc {
-					mism("L2:position", fmt.Sprintf("after %s the loop is at %s/%s, model %s", op.Name(), pos, pp, want.Pc), want.Pc, pos+"/"+pp)
-					aborted = true
-				} else if pos == "asked" && pp != want.Cur {
-					mism("L2:position", "network asked about another peer", want.Cur, pp)
-					aborted = true
-				} else if pos == "scan" {
-					found := false
-					for _, q := range want.Todo {
-						found = found || q == pp
-					}
-					if !found {
-						mism("L2:position", "network about to be asked about a peer that is not overdue in the model", want.Todo, pp)
+			if !cfg.monOnly {
+				// ---- observables against the model
+				if !aborted {
+					gotPc := pos
+					if gotPc != want.Pc {
+						mism("L2:position", fmt.Sprintf("after %s the loop is at %s/%s, model %s", op.Name(), pos, pp, want.Pc), want.Pc, pos+"/"+pp)
 						aborted = true
-					}
-				}
-			}
-			if got := int(h.since() / vfC09pmUnit); got != want.Time {
-				t.Fatalf("virtual clock %d, model %d", got, want.Time)
-			}
-			for _, p := range cfg.peers {
-				b := h.books(p)
-				for _, bk := range vfC09pmBooks {
-					if b[bk] != want.Data[p] {
-						mism("pm-data-differs-from-model:"+bk, fmt.Sprintf("after %s: %s in the %s book: %v, model %v", op.Name(), p, bk, b[bk], want.Data[p]), want.Data, b)
+					} else if pos == "asked" && pp != want.Cur {
+						mism("L2:position", "network asked about another peer", want.Cur, pp)
 						aborted = true
-					}
-				}
-				if b["addrs"] != want.Addr[p] {
-					mism("pm-addresses-differ-from-model", fmt.Sprintf("after %s: %s has addresses: %v, model %v", op.Name(), p, b["addrs"], want.Addr[p]), want.Addr, b)
-					aborted = true
-				}
-				// K5: a step that names one peer leaves the others alone
-				if q := op.S("p"); q != "" && q != p {
-					for k, v := range before[p] {
-						if v != b[k] {
-							rep("pm-step-for-one-peer-changed-another", fmt.Sprintf("%s(%s) changed the %s book of %s", op.Name(), q, k, p))
+					} else if pos == "scan" {
+						found := false
+						for _, q := range want.Todo {
+							found = found || q == pp
+						}
+						if !found {
+							mism("L2:position", "network about to be asked about a peer that is not overdue in the model", want.Todo, pp)
+							aborted = true
 						}
 					}
 				}
-				if before[p]["addrs"] && !b["addrs"] {
-					rep("pm-addresses-removed", fmt.Sprintf("%s: the permanent address of %s disappeared", op.Name(), p))
+				if got := int(h.since() / vfC09pmUnit); got != want.Time {
+					t.Fatalf("virtual clock %d, model %d", got, want.Time)
 				}
-			}
-			if got := h.qlen(); got != len(want.Q) && !aborted {
-				mism("L2:queue", fmt.Sprintf("after %s: %d events wait in the subscription, model %d", op.Name(), got, len(want.Q)), len(want.Q), got)
-				aborted = true
-			}
-			if got := h.stalledEmits() > 0; got != want.Stalled {
-				mism("pm-publisher-blocking", fmt.Sprintf("after %s: publisher blocked: %v, model %v (buffer %d, waiting %d)", op.Name(), got, want.Stalled, cfg.buf, h.qlen()), want.Stalled, got)
-				aborted = true
-			}
-			if got := h.closeWaiting(); got != want.Nwait {
-				cls := "pm-close-returned-before-loop-ended"
-				if got > want.Nwait {
-					cls = "pm-close-does-not-return"
-				}
-				mism(cls, fmt.Sprintf("after %s: %d Close calls waiting, model %d", op.Name(), got, want.Nwait), want.Nwait, got)
-				aborted = true
-			}
-			if got := h.subscribed(); got != want.Sub && !aborted {
-				mism("L2:subscription", fmt.Sprintf("after %s: subscribed %v, model %v", op.Name(), got, want.Sub), want.Sub, got)
-			}
-			// ---- per-op expectations
-			switch op.Name() {
-			case "tick":
-				if cfg.atomic {
-					gq, gr := []string{}, []string{}
-					for _, l := range queries {
-						gq = append(gq, l.peer)
+				for _, p := range cfg.peers {
+					b := h.books(p)
+					for _, bk := range vfC09pmBooks {
+						if b[bk] != want.Data[p] {
+							mism("pm-data-differs-from-model:"+bk, fmt.Sprintf("after %s: %s in the %s book: %v, model %v", op.Name(), p, bk, b[bk], want.Data[p]), want.Data, b)
+							aborted = true
+						}
 					}
+					if b["addrs"] != want.Addr[p] {
+						mism("pm-addresses-differ-from-model", fmt.Sprintf("after %s: %s has addresses: %v, model %v", op.Name(), p, b["addrs"], want.Addr[p]), want.Addr, b)
+						aborted = true
+					}
+					// K5: a step that names one peer leaves the others alone
+					if q := op.S("p"); q != "" && q != p {
+						for k, v := range before[p] {
+							if v != b[k] {
+								rep("pm-step-for-one-peer-changed-another", fmt.Sprintf("%s(%s) changed the %s book of %s", op.Name(), q, k, p))
+							}
+						}
+					}
+					if before[p]["addrs"] && !b["addrs"] {
+						rep("pm-addresses-removed", fmt.Sprintf("%s: the permanent address of %s disappeared", op.Name(), p))
+					}
+				}
+				if got := h.qlen(); got != len(want.Q) && !aborted {
+					mism("L2:queue", fmt.Sprintf("after %s: %d events wait in the subscription, model %d", op.Name(), got, len(want.Q)), len(want.Q), got)
+					aborted = true
+				}
+				if got := h.stalledEmits() > 0; got != want.Stalled {
+					mism("pm-publisher-blocking", fmt.Sprintf("after %s: publisher blocked: %v, model %v (buffer %d, waiting %d)", op.Name(), got, want.Stalled, cfg.buf, h.qlen()), want.Stalled, got)
+					aborted = true
+				}
+				if got := h.closeWaiting(); got != want.Nwait {
+					cls := "pm-close-returned-before-loop-ended"
+					if got > want.Nwait {
+						cls = "pm-close-does-not-return"
+					}
+					mism(cls, fmt.Sprintf("after %s: %d Close calls waiting, model %d", op.Name(), got, want.Nwait), want.Nwait, got)
+					aborted = true
+				}
+				if got := h.subscribed(); got != want.Sub && !aborted {
+					mism("L2:subscription", fmt.Sprintf("after %s: subscribed %v, model %v", op.Name(), got, want.Sub), want.Sub, got)
+				}
+				// ---- per-op expectations
+				switch op.Name() {
+				case "tick":
+					if cfg.atomic {
+						gq, gr := []string{}, []string{}
+						for _, l := range queries {
+							gq = append(gq, l.peer)
+						}
+						for _, l := range removes {
+							gr = append(gr, l.peer)
+						}
+						sort.Strings(gq)
+						sort.Strings(gr)
+						if wq := vfC09pmSetStr(op.L("overdue")); vfh.Canon(wq) != vfh.Canon(gq) {
+							mism("L2:asked-set", "cleanup run asked the network about other peers than the model", wq, gq)
+						}
+						if wr := vfC09pmSetStr(op.L("removed")); vfh.Canon(wr) != vfh.Canon(gr) {
+							mism("L2:removed-set", "cleanup run called RemovePeer for other peers than the model", wr, gr)
+						}
+					}
+				case "query":
+					if len(queries) != 1 || vfC09pmKind(queries[0].reply) != op.S("reply") {
+						mism("L2:query", "the network stub was not asked exactly once with the model's answer", op, fmt.Sprint(queries))
+					}
+				case "apply":
+					if (len(removes) == 1) != op.B("removed") {
+						mism("L2:removed-set", "RemovePeer call differs from the model", op, fmt.Sprint(removes))
+					}
+				case "exit":
+					gr := []string{}
 					for _, l := range removes {
 						gr = append(gr, l.peer)
 					}
-					sort.Strings(gq)
 					sort.Strings(gr)
-					if wq := vfC09pmSetStr(op.L("overdue")); vfh.Canon(wq) != vfh.Canon(gq) {
-						mism("L2:asked-set", "cleanup run asked the network about other peers than the model", wq, gq)
-					}
 					if wr := vfC09pmSetStr(op.L("removed")); vfh.Canon(wr) != vfh.Canon(gr) {
-						mism("L2:removed-set", "cleanup run called RemovePeer for other peers than the model", wr, gr)
+						mism("L2:removed-set", "the exiting loop called RemovePeer for other peers than the model", wr, gr)
 					}
-				}
-			case "query":
-				if len(queries) != 1 || vfC09pmKind(queries[0].reply) != op.S("reply") {
-					mism("L2:query", "the network stub was not asked exactly once with the model's answer", op, fmt.Sprint(queries))
-				}
-			case "apply":
-				if (len(removes) == 1) != op.B("removed") {
-					mism("L2:removed-set", "RemovePeer call differs from the model", op, fmt.Sprint(removes))
-				}
-			case "exit":
-				gr := []string{}
-				for _, l := range removes {
-					gr = append(gr, l.peer)
-				}
-				sort.Strings(gr)
-				if wr := vfC09pmSetStr(op.L("removed")); vfh.Canon(wr) != vfh.Canon(gr) {
-					mism("L2:removed-set", "the exiting loop called RemovePeer for other peers than the model", wr, gr)
 				}
 			}
 			// K4 at rest
@@ -897,6 +902,7 @@ func vfC09pmCfgOf(hdr map[string]any) vfC09pmCfg {
 	c.atomic, _ = hdr["atomic"].(bool)
 	c.initData, _ = hdr["initData"].(bool)
 	c.defaultInt = c.g == 2*c.i // exercise the manager's own default (gracePeriod / 2)
+	c.monOnly, _ = hdr["monitorsOnly"].(bool)
 	return c
 }
 
